@@ -66,6 +66,32 @@ func numTok(v interface{}) (string, bool) {
 	return "", false
 }
 
+// typedTok: #Y map[interface{}]interface{} (string keys), #S map[string]string, #L []string - each
+// carrying the hex of the canonical text of the plain value with the same content.
+func typedTok(v interface{}) (string, bool) {
+	switch x := v.(type) {
+	case map[interface{}]interface{}:
+		p := map[string]interface{}{}
+		for k, e := range x {
+			p[fmt.Sprint(k)] = e
+		}
+		return "#Y:" + hx(enc(p)), true
+	case map[string]string:
+		p := map[string]interface{}{}
+		for k, e := range x {
+			p[k] = e
+		}
+		return "#S:" + hx(enc(p)), true
+	case []string:
+		p := make([]interface{}, len(x))
+		for i, e := range x {
+			p[i] = e
+		}
+		return "#L:" + hx(enc(p)), true
+	}
+	return "", false
+}
+
 // enc prints a Go value canonically.  Unknown dynamic types are printed as `?<type>` so
 // that they can never compare equal to a model value.
 func enc(v interface{}) string {
@@ -121,6 +147,13 @@ func encTo(sb *strings.Builder, v interface{}, depth int, onPath map[uintptr]boo
 		}
 		if m, ok := asMap(v); ok {
 			encMap(sb, m, depth, onPath)
+			return
+		}
+		// other Go container types a program may put into a Map (a YAML decoder's maps, typed string
+		// maps and slices): opaque leaves for the walkers and for the model, printed with their
+		// content so that a change inside is seen
+		if t, ok := typedTok(v); ok {
+			sb.WriteString(t)
 			return
 		}
 		sb.WriteString(fmt.Sprintf("?%T", v))
@@ -269,6 +302,37 @@ func decNum(t string) (interface{}, error) {
 	case "i8":
 		n, err := strconv.ParseInt(txt, 10, 8)
 		return int8(n), err
+	case "Y", "S", "L":
+		b, err := hex.DecodeString(txt)
+		if err != nil {
+			return nil, err
+		}
+		p := 0
+		iv, err := decVal(strings.Fields(string(b)), &p)
+		if err != nil {
+			return nil, err
+		}
+		switch tag {
+		case "Y":
+			o := map[interface{}]interface{}{}
+			for k, e := range iv.(map[string]interface{}) {
+				o[k] = e
+			}
+			return o, nil
+		case "S":
+			o := map[string]string{}
+			for k, e := range iv.(map[string]interface{}) {
+				o[k], _ = e.(string)
+			}
+			return o, nil
+		default:
+			l := iv.([]interface{})
+			o := make([]string, len(l))
+			for i, e := range l {
+				o[i], _ = e.(string)
+			}
+			return o, nil
+		}
 	case "M":
 		b, err := hex.DecodeString(txt)
 		if err != nil {
